@@ -122,7 +122,7 @@ class FixedWindowCandidates:
 
         """
         add_to_queue = True
-        if np.any(row_inds) and np.any(col_inds):
+        if row_inds is not None and len(row_inds) > 0:
 
             for idx, (row, col) in enumerate(zip(row_inds, col_inds)):
                 current_instances.track_ids[row] = col
